@@ -202,12 +202,18 @@ func (m Message) ClearString() string {
 			switch v := v.(type) {
 			case Message:
 				args[i] = v.ClearString()
+			case string:
+				args[i], _ = TransCtrlSeq(v, false)
 			default:
 				args[i] = v
 			}
 		}
 
-		_, _ = fmt.Fprintf(&msg, translateMap[m.Translate], args...)
+		if f, ok := translateMap[m.Translate]; ok {
+			_, _ = fmt.Fprintf(&msg, f, args...)
+		} else {
+			msg.WriteString(m.Translate)
+		}
 	}
 
 	if m.Extra != nil {
@@ -247,7 +253,19 @@ func (m Message) String() string {
 
 	// handle translate
 	if m.Translate != "" {
-		_, _ = fmt.Fprintf(&msg, translateMap[m.Translate], m.With...)
+		args := make([]any, len(m.With))
+		for i, v := range m.With {
+			if s, ok := v.(string); ok {
+				args[i], _ = TransCtrlSeq(s, true)
+			} else {
+				args[i] = v
+			}
+		}
+		if f, ok := translateMap[m.Translate]; ok {
+			_, _ = fmt.Fprintf(&msg, f, args...)
+		} else {
+			msg.WriteString(m.Translate)
+		}
 	}
 
 	if m.Extra != nil {
@@ -271,7 +289,14 @@ func TransCtrlSeq(str string, ansi bool) (dst string, change bool) {
 	dst = fmtPat.ReplaceAllStringFunc(
 		str,
 		func(str string) string {
-			f, ok := fmtCode[str[2]]
+			c := str[2]
+			if c >= 'A' && c <= 'Z' {
+				c += 'a' - 'A'
+			}
+			if c == 'k' {
+				return "" // obfuscated: nothing to show on a terminal
+			}
+			f, ok := fmtCode[c]
 			if ok {
 				if ansi {
 					change = true
